@@ -372,7 +372,8 @@ def match_template(
 
         return ()
 
-    if node == template:
+    if node == template and type(node) is type(template):
+        # The types must also agree, since 1 == 1.0 == True, but they are not the same code
         return (node,)
 
     return ()
